@@ -282,7 +282,13 @@ class SegmentTensor(PolytopeTensor):
                 result = meet(self._line, other._line, _check_dependence=False)
             except NotCoplanar:
                 # skew supporting lines have no common point
-                return []
+                coplanar = self._line.is_coplanar(other._line)
+                if not np.any(coplanar):
+                    return []
+                # collections: intersect the pairs with coplanar supporting lines only
+                a = np.broadcast_to(self.array, coplanar.shape + self.array.shape[-2:])[coplanar]
+                b = np.broadcast_to(other.array, coplanar.shape + other.array.shape[-2:])[coplanar]
+                return SegmentCollection(a, copy=False).intersect(SegmentCollection(b, copy=False))
             ind = ~result.is_zero() & self.contains(result) & other.contains(result)
         else:
             result = meet(self._line, other, _check_dependence=False)
